@@ -33,7 +33,7 @@ func init() {
 		Tech: "static analysis: type-flow table of stored dynamic types vs a model of encoding/json; SSA dataflow identity; abstract evaluation over orderings",
 	})
 	defProp(&Prop{ID: "C04", Title: "Expiry",
-		Explanation: stance + "Decided clauses: every read primitive of the keyspace reports an entry only on the 'deadline not passed' edge of an expiry test of that entry, with the right orientation and the zero deadline treated as alive (X1); every expiry-driven removal (background sampler, lazy deletion, snapshot filter) happens only on the 'deadline has passed' edge (X3); setValues does not carry over a deadline that has already passed (X4); EXPIRE/PEXPIRE/EXPIREAT/PEXPIREAT set the deadline and reply exactly as documented for option x current-deadline x ordering (X5); PERSIST / zero deadlines leave the volatile index (A3).",
+		Explanation: stance + "Decided clauses: every read primitive of the keyspace reports an entry only on the 'deadline not passed' edge of an expiry test of that entry, with the right orientation and the zero deadline treated as alive (X1); every expiry-driven removal (background sampler, lazy deletion, snapshot filter) happens only on the edges 'a deadline is set' and 'it has passed', established since the last mutex release (X3); setValues does not carry over a deadline that has already passed (X4); EXPIRE/PEXPIRE/EXPIREAT/PEXPIREAT set the deadline and reply exactly as documented for option x current-deadline x ordering (X5); PERSIST / zero deadlines leave the volatile index (A3).",
 		Decides:     []string{"X1 expired keys unobservable through KeysExist/GetValues/GetExpiry/Randomkey", "X3 only expired keys are removed by expiry", "X4 no inherited expired deadline", "X5 EXPIRE-family option table (36 cases)", "A3 volatile index membership"},
 		NotCovered:  []string{"TTL/PTTL/EXPIRETIME arithmetic", "SET EX/PX/EXAT/PXAT and GETEX option parsing (value-level)", "timing of background expiry"},
 		Rules:       []RuleRef{{ID: "X1"}, {ID: "X3"}, {ID: "X4"}, {ID: "X5"}, {ID: "A3", Scope: []string{"volatile-index-append"}, Floor: 1}},
@@ -41,17 +41,19 @@ func init() {
 	})
 	defProp(&Prop{ID: "C05", Title: "Commands are atomic",
 		Explanation: stance + "Decided clauses: every access to a guarded structure (store, memory counter, volatile-key index, per-database caches and their heaps, connection table, command list, ACL users/connections/globs, pub/sub tables, AOF handles) happens with its lock held in a sufficient mode on every call chain from every root (L1); the lock-order graph is acyclic modulo gate locks and no non-reentrant lock is re-acquired (L2); in-progress flags are cleared on every exit (D8); a command that takes more than one keyspace step holds a command-scoped lock across them (L4) and does not mutate stored objects in place outside the keyspace lock (P3).",
-		Decides:     []string{"L1 lock discipline over the frozen guard table", "L2 lock order / self-deadlock", "D8 flag pairing", "L4 command-level atomicity (reported per handler)", "P3 in-place mutation outside the lock (reported per handler)"},
+		Decides:     []string{"L1 lock discipline over the frozen guard table", "L2 lock order / self-deadlock", "D8 flag pairing", "L4 command-level atomicity (reported per handler)", "P3 in-place mutation outside the lock (reported per handler)", "X3 background/lazy expiry removes a key only inside the critical section in which it found the key's deadline passed (a mutex release forgets what was learnt about the entry)"},
 		NotCovered:  []string{"linearizability of replies over histories", "liveness under contention", "the busy-wait handshake between state copy and state mutation (check-then-set on two atomics)"},
 		Assumptions: []string{"the guard table (field -> lock) frozen in locks.go is the intended discipline; it was inferred from the majority of accesses and confirmed by reading"},
-		Rules:       []RuleRef{{ID: "L1"}, {ID: "L2"}, {ID: "D8"}, {ID: "L4"}, {ID: "P3"}, {ID: "T7"}},
+		Rules: []RuleRef{{ID: "L1"}, {ID: "L2"}, {ID: "D8"}, {ID: "L4"}, {ID: "P3"}, {ID: "T7"},
+			{ID: "X3", Scope: []string{"evictKeysWithExpiredTTL|delete:", "getValues|delete:"}, Floor: 4}},
 		Tech:        "static analysis: interprocedural must-lockset over SSA CFGs with wrapper summaries, caller-chain requirement propagation (VTA), gate-aware lock-order graph, store-reference taint",
 	})
 	defProp(&Prop{ID: "C06", Title: "ACL authorization",
 		Explanation: stance + "Decided clauses: every effectful step of the TCP dispatcher (handler invocation, raft apply, forwarding, AOF append, mutation flag) is dominated by a successful AuthorizeConnection or by a bypass edge for non-TCP callers, and the gate sees the very command, sub-command and tokens that are executed (D1); only the handshake commands are exempt before the authentication test (T4); the decision uses the key-extraction result of the command or sub-command being run (SK), checks channels, read keys and write keys one by one (Q) and consults every rule field of the user (FE); the keys the decision sees are the keys the handler passes to the keyspace, for every table entry and accessor call site (K1, T6).",
-		Decides:     []string{"D1 authorization gate dominates every sink of the dispatcher; gate inputs are the request's", "T4 exemptions within the handshake commands", "SK every key-extraction result feeds the resource checks", "Q every resource collection can cause a per-element denial", "FE every rule field of the user is enforced", "K1+T6 the keys the decision sees are the keys the handler touches (all table entries, all accessor call sites)"},
+		Decides:     []string{"D1 authorization gate dominates every sink of the dispatcher; gate inputs are the request's", "T4 exemptions within the handshake commands", "SK every key-extraction result feeds the resource checks", "Q every resource collection can cause a per-element denial", "FE every rule field of the user is enforced", "K1+T6 the keys the decision sees are the keys the handler touches (all table entries, all accessor call sites)", "U1 a connection becomes authenticated only on a path that established that the user is enabled (the statement's 'authenticated as an enabled user')"},
 		NotCovered:  []string{"glob matching semantics, category arithmetic, polarity of individual tests, rule normalisation (value-level)", "that a denied command has no effect on ACL/connection state beyond the dispatcher's sinks"},
-		Rules:       []RuleRef{{ID: "D1"}, {ID: "T4"}, {ID: "SK"}, {ID: "Q"}, {ID: "FE"}, {ID: "K1"}, {ID: "T6"}},
+		Rules: []RuleRef{{ID: "D1"}, {ID: "T4"}, {ID: "SK"}, {ID: "Q"}, {ID: "FE"}, {ID: "K1"}, {ID: "T6"},
+			{ID: "U1", Scope: []string{"update-only-if-enabled"}, Floor: 1}},
 	})
 	defProp(&Prop{ID: "C07", Title: "Replication",
 		Explanation: stance + "Decided clauses: only the dispatcher and the raft FSM invoke command handlers; in a cluster a synced command is never applied locally, raft apply happens only on the leader, forwarding only when enabled, otherwise the client gets an error (D4); every handler that can mutate the keyspace is Sync, i.e. replicated (T2).",
